@@ -375,6 +375,18 @@ pub fn property(tier: Tier) -> Property {
             dec_cases.push(DecCase { enc_case: c.clone(), response, free: false, drip: true, fixed: None, segments: 1 });
         }
     }
+    // a compressed message whose plain length is exactly the default receive limit (4 MiB), whole
+    // and in 16 KiB frames
+    for enc in ENC_OPTS {
+        if enc.is_none() {
+            continue;
+        }
+        let c = EncCase { prost: false, settings: (8 * 1024, 32 * 1024), msgs: vec![vec![0u8; 4 * 1024 * 1024], payload(3, 1)], enc, role: Role::Client };
+        for response in [false, true] {
+            dec_cases.push(DecCase { enc_case: c.clone(), response, free: false, drip: false, fixed: Some(vec![]), segments: 1 });
+            dec_cases.push(DecCase { enc_case: c.clone(), response, free: false, drip: false, fixed: Some(vec![16384]), segments: 1 });
+        }
+    }
     // streams longer than 72 wire bytes get one deviation less (the number of chunkings with k cuts
     // grows as len^k); every single cut position is still covered for them
     let long_threshold = tier.q(72usize, 40usize);
@@ -402,7 +414,7 @@ pub fn property(tier: Tier) -> Property {
     let dec_sec = Section::new(
         "decode",
         Config { max_bound: tier.q(2, 3), ..Default::default() },
-        "cases: the wire bytes tonic's encoder produced for each encode case, fed to Streaming::new_request / new_response(200, grpc-status 0); environment: the body chooses the length of every DATA frame — every composition (cuts cost 0) for identity streams <= 14 (quick) / 20 (thorough) bytes, otherwise every chunking with <= bound cuts — plus Pending and empty DATA frames as deviations, plus byte-by-byte drip, plus DATA frames handed over as non-contiguous buffers (a Buf of 2 or 3 segments per frame); oracle: decoded messages == originals in order, then None three times. Non-trivial = at least one chunk boundary fell strictly inside a frame (prefix or payload).",
+        "cases: the wire bytes tonic's encoder produced for each encode case, fed to Streaming::new_request / new_response(200, grpc-status 0); environment: the body chooses the length of every DATA frame — every composition (cuts cost 0) for identity streams <= 14 (quick) / 20 (thorough) bytes, otherwise every chunking with <= bound cuts — plus Pending and empty DATA frames as deviations, plus byte-by-byte drip, plus a compressed message of exactly 4 MiB (the default receive limit), plus DATA frames handed over as non-contiguous buffers (a Buf of 2 or 3 segments per frame); oracle: decoded messages == originals in order, then None three times. Non-trivial = at least one chunk boundary fell strictly inside a frame (prefix or payload).",
         dec_cases,
         |c: &DecCase| format!("prost={} settings={:?} msgs={:?} enc={} response={} free={} drip={} fixed={:?} segments={}", c.enc_case.prost, c.enc_case.settings, c.enc_case.msgs.iter().map(|m| m.len()).collect::<Vec<_>>(), enc_name(c.enc_case.enc), c.response, c.free, c.drip, c.fixed, c.segments),
         dec_body,
